@@ -87,7 +87,12 @@ func load(c px.Context, name px.TypedName) (interface{}, bool) {
 
 func (l *basicLoader) Discover(c px.Context, predicate func(tn px.TypedName) bool) []px.TypedName {
 	found := make([]px.TypedName, 0)
-	for k := range l.namedEntries {
+	l.lock.RLock()
+	defer l.lock.RUnlock()
+	for k, e := range l.namedEntries {
+		if e.Value() == nil {
+			continue
+		}
 		tn := px.TypedNameFromMapKey(k)
 		if predicate(tn) {
 			found = append(found, tn)
@@ -153,7 +158,12 @@ func (l *basicLoader) NameAuthority() px.URI {
 func (l *parentedLoader) Discover(c px.Context, predicate func(tn px.TypedName) bool) []px.TypedName {
 	found := l.parent.Discover(c, predicate)
 	added := false
-	for k := range l.namedEntries {
+	l.lock.RLock()
+	defer l.lock.RUnlock()
+	for k, e := range l.namedEntries {
+		if e.Value() == nil {
+			continue
+		}
 		tn := px.TypedNameFromMapKey(k)
 		if !l.parent.HasEntry(tn) {
 			if predicate(tn) {
